@@ -285,3 +285,52 @@ make_c = REG.add(Contract(
     attrs={"self.get_array": _self_get_array},
     loops={1: Loop(lambda S, a: [])},
 ))
+
+
+# --------------------------------------------------------------------------------------
+# Context.to_absolute_time_range: the three ways of giving a time range (C10)
+# --------------------------------------------------------------------------------------
+ENDTIME = z3.Function("fn:strax.endtime", V, V)
+
+
+def _tatr_ens(which):
+    def ens(S, a, r):
+        from pyvc.engine import strv
+        if which == "time_within":
+            ok = isinstance(r, tuple) and len(r) == 2
+            return [("a range taken from a row runs from the row's time to its END as strax.endtime computes it (time + length * dt for "
+                     "rows without an endtime field), as integers",
+                     S.And(S.eq(S.v(r[0]), S.call("int", S.getitem(a.time_within, "time"))),
+                           S.eq(S.v(r[1]), S.call("int", ENDTIME(S.v(a.time_within))))) if ok else S.false)]
+        if which == "time_range":
+            ok = isinstance(r, tuple) and len(r) == 2
+            return [("an absolute range is passed on unchanged, as integers",
+                     S.And(S.eq(S.v(r[0]), S.call("int", S.getitem(a.time_range, 0))), S.eq(S.v(r[1]), S.call("int", S.getitem(a.time_range, 1)))) if ok else S.false)]
+        return []
+    return ens
+
+
+def _int_call(eng, args, kw, st, fr, k, node):
+    v = args[0]
+    if isinstance(v, Opq):
+        return k(Opq(z3.Function("fn:int", V, V)(v.t)), st)
+    from pyvc.library import LIB
+    return LIB["int"](eng, args, kw, st, fr, k, node)
+
+
+def _tatr_contract(which):
+    none = lambda eng, name, st: (PNONE, st)
+    params = dict(self="V", run_id="V", targets="V", time_range=none, seconds_range=none, time_within=none, full_range=none)
+    params[which] = "V"
+    return REG.add(Contract(
+        F, "Context.to_absolute_time_range", variant=which + " given",
+        params=params,
+        requires=lambda S, a: [("the argument is given", S.Not(S.is_none(getattr(a, which))))],
+        ensures=_tatr_ens(which), raises={"RuntimeError": lambda S, a: S.false},
+        calls={"strax.endtime": Abstract(pure=True), "int": _int_call, "self.estimate_run_start_and_end": Abstract(pure=True),
+               "tuple": lambda eng, args, kw, st, fr, k, node: k(tuple(args[0]) if isinstance(args[0], (list, tuple)) else args[0], st)},
+        expected_dead=[("raise RuntimeError", "Pass no more than one one of")],
+    ))
+
+
+tatr_time_within = _tatr_contract("time_within")
